@@ -121,8 +121,13 @@ pub fn parse<'a>(r: &'a RunResult) -> Parsed<'a> {
                     // on the caller (the loop's initial timestamp).
                     if t == 0 && p.initial.is_none() && p.by_thread[0].is_empty() {
                         p.initial = cur[t].start.take();
+                        // What followed the initial timestamp was
+                        // preparation, not a timed section (synchronisation
+                        // there is of no interest).
                         let moved = std::mem::take(&mut cur[t].win);
-                        cur[t].pre.extend(moved);
+                        cur[t].pre.extend(moved.into_iter().filter(|e| {
+                            matches!(e.kind, Ev::User(_) | Ev::TallyCleared | Ev::ClockRead { .. })
+                        }));
                         cur[t].start = Some(e);
                     } else {
                         p.errors.push(format!(
@@ -181,6 +186,22 @@ pub fn parse<'a>(r: &'a RunResult) -> Parsed<'a> {
                     St::Post => cur[t].post.push(e),
                 }
             }
+            // A thread that waits for other threads between its two
+            // timestamps measures their time: potentially blocking
+            // synchronisation is recorded when it falls inside a window (the
+            // harness's own closures use none).
+            Ev::BarrierArrive { .. }
+            | Ev::BarrierLeave { .. }
+            | Ev::Lock { .. }
+            | Ev::CondWait { .. }
+            | Ev::Park { .. }
+            | Ev::Send { .. }
+            | Ev::Recv { .. }
+            | Ev::Join { .. }
+                if st[t] == St::Win =>
+            {
+                cur[t].win.push(e)
+            }
             _ => {}
         }
     }
@@ -196,7 +217,7 @@ pub fn parse<'a>(r: &'a RunResult) -> Parsed<'a> {
             if p.by_thread[0].len() == 1
                 && s0.end.is_none()
                 && s0.pre.is_empty()
-                && s0.win.is_empty()
+                && s0.win.iter().all(|e| !matches!(e.kind, Ev::User(_) | Ev::TallyCleared | Ev::ClockRead { .. }))
                 && s0.start.is_some()
             {
                 p.initial = s0.start;
